@@ -198,6 +198,12 @@ func check(c Case) *vfrun.Failure {
 		if big.NewInt(int64(got)).Cmp(strict) != 0 && big.NewInt(int64(got)).Cmp(lenient) != 0 {
 			return vfrun.Failf("complexity.value", "[%s] Calculate = %d, documented definition gives %s\nquery: %s\nspecs: %v", s.P.Vec, got, strict, c.Query, c.Specs)
 		}
+		if len(pr.Vars) > 0 {
+			// the cost depends on variable values: a gate that computed it without them would be fooled
+			if noVars, _, _ := evaluate(s.Schema, c.Specs, nil, pr.Op.SelectionSet); noVars.Cmp(strict) != 0 {
+				vfrun.Label("cost-depends-on-variable-values")
+			}
+		}
 		// monotonicity: adding the root selections of another operation never lowers the value
 		if c.Extra != "" {
 			pr2, f := kit.Prepare(s, kit.Case{Project: c.Project, Query: c.Extra})
@@ -289,14 +295,118 @@ func check(c Case) *vfrun.Failure {
 
 var cvals = []int64{0, 0, 1, 1, 2, 3, 5, 10, 100, -1, -5, -(1 << 40), 1 << 31, 1 << 62, univ.MaxInt, univ.MaxInt - 1, univ.MaxInt / 2, univ.MaxInt/2 + 1}
 
+// intArg: the first Int-typed argument of a field (what the harness's custom functions multiply by),
+// if the field can be selected giving only that argument.
+func intArg(fd *ast.FieldDefinition) *ast.ArgumentDefinition {
+	var first *ast.ArgumentDefinition
+	for _, ad := range fd.Arguments {
+		if first == nil && ad.Type.Name() == "Int" && ad.Type.Elem == nil {
+			first = ad
+			continue
+		}
+		if ad.Type.NonNull && ad.DefaultValue == nil {
+			return nil
+		}
+	}
+	return first
+}
+
+// genVarCost draws an operation whose cost is decided by variable values: fields with a custom
+// complexity function that multiplies an Int argument, the argument being given through a variable
+// (provided, or left to the variable's default).
+func genVarCost(t *rapid.T, s *proj.Server) (Case, bool) {
+	type cand struct {
+		parent *ast.FieldDefinition // root field leading to the object, nil for a root field
+		obj    string
+		fd     *ast.FieldDefinition
+	}
+	var cands []cand
+	q := s.Schema.Query
+	for _, f := range q.Fields {
+		if strings.HasPrefix(f.Name, "__") {
+			continue
+		}
+		if intArg(f) != nil && s.U.ComplexityFields[q.Name+"."+f.Name] {
+			cands = append(cands, cand{nil, q.Name, f})
+		}
+		td := s.Schema.Types[f.Type.Name()]
+		needs := false
+		for _, ad := range f.Arguments {
+			if ad.Type.NonNull && ad.DefaultValue == nil {
+				needs = true
+			}
+		}
+		if td == nil || td.Kind != ast.Object || needs {
+			continue
+		}
+		for _, g := range td.Fields {
+			if intArg(g) != nil && s.U.ComplexityFields[td.Name+"."+g.Name] {
+				cands = append(cands, cand{f, td.Name, g})
+			}
+		}
+	}
+	if len(cands) == 0 {
+		return Case{}, false
+	}
+	c := Case{Specs: map[string]univ.CSpec{}, Variables: map[string]any{}}
+	var decls, sels []string
+	n := rapid.IntRange(1, 3).Draw(t, "nvarfields")
+	for i := 0; i < n; i++ {
+		cd := cands[rapid.IntRange(0, len(cands)-1).Draw(t, "cand")]
+		ad := intArg(cd.fd)
+		v := fmt.Sprintf("c%d", i)
+		val := rapid.SampledFrom([]int64{0, 1, 2, 7, 1000, 1 << 31 - 1}).Draw(t, "varvalue")
+		switch rapid.IntRange(0, 2).Draw(t, "varform") {
+		case 0: // provided
+			typ := "Int"
+			if ad.Type.NonNull {
+				typ = "Int!"
+			}
+			decls = append(decls, "$"+v+": "+typ)
+			c.Variables[v] = val
+		case 1: // left to the variable's default
+			decls = append(decls, fmt.Sprintf("$%s: Int = %d", v, val))
+		default: // provided, overriding a default
+			decls = append(decls, fmt.Sprintf("$%s: Int = %d", v, rapid.SampledFrom([]int64{0, 3, 500}).Draw(t, "vardefault")))
+			c.Variables[v] = val
+		}
+		sel := fmt.Sprintf("v%d: %s(%s: $%s)", i, cd.fd.Name, ad.Name, v)
+		if td := s.Schema.Types[cd.fd.Type.Name()]; td != nil && td.IsCompositeType() {
+			sel += " { __typename }"
+		}
+		if cd.parent != nil {
+			sel = fmt.Sprintf("p%d: %s { %s }", i, cd.parent.Name, sel)
+		}
+		sels = append(sels, sel)
+		c.Specs[cd.obj+"."+cd.fd.Name] = univ.CSpec{
+			A: rapid.SampledFrom([]int64{0, 1, 2}).Draw(t, "va"),
+			B: rapid.SampledFrom([]int64{1, 5, 1 << 30}).Draw(t, "vb"),
+			C: rapid.SampledFrom([]int64{0, 1, -5}).Draw(t, "vc"),
+		}
+	}
+	c.Query = "query(" + strings.Join(decls, ", ") + ") { " + strings.Join(sels, " ") + " }"
+	return c, true
+}
+
 func gen(t *rapid.T) Case {
 	var c Case
-	c.Project = rapid.SampledFrom(proj.Names()).Draw(t, "project")
+	c.Project = kit.DrawProject(t)
 	srvs, err := kit.Servers(c.Project)
 	if err != nil {
 		t.Fatalf("harness: %v", err)
 	}
 	s := srvs[0]
+	if rapid.IntRange(0, 4).Draw(t, "varcost?") == 0 {
+		if vc, ok := genVarCost(t, s); ok {
+			vc.Project = c.Project
+			if _, f := kit.Prepare(s, kit.Case{Query: vc.Query, Variables: vc.Variables}); f != nil {
+				t.Fatalf("harness: generated variable-cost operation is invalid: %s: %s", vc.Query, f.Msg)
+			}
+			vc.LimitRel = rapid.SampledFrom([]int{-2, -1, 0, 1, 99}).Draw(t, "limitrel")
+			vc.Limit = rapid.SampledFrom([]int64{0, 1, 5, 20, 100, 1000}).Draw(t, "limit")
+			return vc
+		}
+	}
 	op := opgen.Generate(t, s.Schema, opgen.Options{MaxFields: 25, MaxDepth: 5})
 	c.Query, c.Variables = op.Query, op.Variables
 	if _, f := kit.Prepare(s, kit.Case{Query: c.Query, Variables: c.Variables}); f != nil {
